@@ -296,6 +296,35 @@ def build():
         D.add_edge(([2], [3]))
         return D
 
+    # an empty edge whose ID is the largest integer ID, through every reader / converter that creates edges itself
+    def lastEmptyH():
+        H = Hy()
+        H.add_nodes_from([1, 2, 3])
+        H.add_edge([1, 2], idx=0)
+        H.add_edge([], idx=3, w=7)
+        return H
+
+    def lastEmptyD():
+        D = Di()
+        D.add_nodes_from([1, 2, 3])
+        D.add_edge(([1], [2]), idx=0)
+        D.add_edge(([], []), idx=3, w=7)
+        return D
+
+    def _hif_file(X, name):
+        p_ = _path(name)
+        xgi.write_hif(X, p_)
+        return xgi.read_hif(p_, nodetype=int, edgetype=int)
+
+    P["H:hif-empty-last"] = lambda: xgi.from_hif_dict(xgi.to_hif_dict(lastEmptyH()))
+    P["H:read_hif-empty-last"] = lambda: _hif_file(lastEmptyH(), "le.hif.json")
+    P["H:dict-empty-last"] = lambda: xgi.from_hypergraph_dict(xgi.to_hypergraph_dict(lastEmptyH()), nodetype=int, edgetype=int)
+    P["H:copy-empty-last"] = lambda: lastEmptyH().copy()
+    P["H:ctor-empty-last"] = lambda: Hy(lastEmptyH())
+    P["D:hif-empty-last"] = lambda: xgi.from_hif_dict(xgi.to_hif_dict(lastEmptyD()))
+    P["D:read_hif-empty-last"] = lambda: _hif_file(lastEmptyD(), "led.hif.json")
+    P["D:copy-empty-last"] = lambda: lastEmptyD().copy()
+    P["D:ctor-empty-last"] = lambda: Di(lastEmptyD())
     P["H:empty-edges"] = emptyH
     P["H:empty-edges-copy"] = lambda: emptyH().copy()
     P["H:dual-of-isolates"] = lambda: Hy([[1, 2]]).dual() if False else _dual_iso()
